@@ -28,7 +28,8 @@ def analyse(repo, q):
     gen, small = ROUTINES[q]
     small = list(small)
     dom_min = min(small + [gen])
-    fi = repo.func(q)
+    from ..canon import canonical, SWEEP_VALUE_ROLES
+    fi = canonical(repo.func(q), SWEEP_VALUE_ROLES)
     for attempt in range(4):
         out = []
         try:
